@@ -224,6 +224,14 @@ func (d *c05mem) query(probes []int64) {
 			d.s.Violate("valid-not-readable", fmt.Sprintf("IsValidOffset(%d)=true but no held bytes/snapshot cover it (held aof [%d,%d], snapshot %+v)",
 				p, held, d.right(), d.snapS), d.replay(map[string]interface{}{"offset": p}))
 		}
+		// the snapshot's own offset is the position a completed replay leaves: "a read
+		// from there onward" needs the log to start there (or no log yet); once the
+		// collector dropped that part of the log the offset must not be valid (a reader
+		// there would be the snapshot again, never followed by the stream) — D30
+		if ok && d.snapOffered() && p == d.snapS.left && held != 1<<60 && !(p >= held && p <= d.right()) {
+			d.s.Violate("valid-not-readable", fmt.Sprintf("IsValidOffset(%d)=true: it is the snapshot's own offset, but the held log [%d,%d] no longer starts there — the source bytes from %d onward cannot be read", p, held, d.right(), p),
+				d.replay(map[string]interface{}{"offset": p}))
+		}
 	}
 	if rl != -1 || rs != -1 {
 		d.s.Count("mon_rdb_offered")
